@@ -427,11 +427,23 @@ impl ScalarIndex for BitmapIndex {
                     Bound::Unbounded => Bound::Unbounded,
                 };
 
-                let keys: Vec<_> = self
-                    .index_map
-                    .range((range_start, range_end))
-                    .map(|(k, _v)| k.clone())
-                    .collect();
+                // `BTreeMap::range` panics on an inverted range, which simply matches nothing
+                let is_empty_range = match (&range_start, &range_end) {
+                    (Bound::Included(start), Bound::Included(end)) => start > end,
+                    (
+                        Bound::Included(start) | Bound::Excluded(start),
+                        Bound::Included(end) | Bound::Excluded(end),
+                    ) => start >= end,
+                    _ => false,
+                };
+                let keys: Vec<_> = if is_empty_range {
+                    Vec::new()
+                } else {
+                    self.index_map
+                        .range((range_start, range_end))
+                        .map(|(k, _v)| k.clone())
+                        .collect()
+                };
 
                 metrics.record_comparisons(keys.len());
 
